@@ -202,6 +202,7 @@ struct World {
     last_pdu: Vec<u8>,
     last_ctx: Option<ContextFrag>,
     fresh: bool,
+    frame: Vec<u8>,
     dec: Option<Dec>,
     dec_cfg: (usize, usize),
     nprov: u64,
@@ -329,6 +330,7 @@ impl World {
             last_pdu: vec![],
             last_ctx: None,
             fresh: false,
+            frame: vec![],
             dec: None,
             dec_cfg: (0, 0),
             nprov: 0,
@@ -623,6 +625,56 @@ impl World {
                 let d = self.dec.as_mut().unwrap();
                 let r = catch_unwind(AssertUnwindSafe(|| d.decap(&bytes)));
                 self.dec_result(r)
+            }
+            "FCLEARFRESH" => {
+                self.fresh = false;
+                "ok".into()
+            }
+            "FCLEAR" => {
+                self.frame.clear();
+                "ok".into()
+            }
+            "FPUSH" => {
+                // append the packet produced since the last delivery / push to the frame under construction
+                if !self.fresh {
+                    return "nopkt".into();
+                }
+                self.fresh = false;
+                let p = self.last_pkt.clone();
+                self.frame.extend_from_slice(&p);
+                format!("ok {}", self.frame.len())
+            }
+            "FPAD" => {
+                let n: usize = t[1].parse().unwrap();
+                self.frame.extend(std::iter::repeat(0u8).take(n));
+                format!("ok {}", self.frame.len())
+            }
+            "FRAW" => {
+                self.frame.extend_from_slice(&bytes_tok(t[1]));
+                format!("ok {}", self.frame.len())
+            }
+            "FWALK" => {
+                // a receiver walking the frame by consumed lengths
+                let frame = self.frame.clone();
+                let mut off = 0usize;
+                let mut out = vec![];
+                let mut steps = 0;
+                while off < frame.len() && steps < 300 {
+                    steps += 1;
+                    let d = self.dec.as_mut().unwrap();
+                    let r = catch_unwind(AssertUnwindSafe(|| d.decap(&frame[off..])));
+                    let s = self.dec_result(r);
+                    let c: usize = match s.rfind("consumed=") {
+                        Some(i) => s[i + 9..].parse().unwrap_or(0),
+                        None => 0,
+                    };
+                    out.push(s);
+                    if c == 0 {
+                        break;
+                    }
+                    off += c;
+                }
+                format!("walk {} | {}", off, out.join(" | "))
             }
             "PEEK" | "PEEKL" => {
                 let bytes = if op == "PEEK" {
